@@ -256,12 +256,14 @@ def run(ctx):
     while k < limit and not ctx.out_of_time():
         k += 1
         rng = ctx.rng_for('rand', ctx.shard, k)
-        alpha = rng.choice(('ab.c', 'ab.', 'aB.x', 'a-]!', 'a.(|'))
+        alpha = rng.choice(('ab.c', 'ab.', 'aB.x', 'a-]!', 'a.(|', 'a\xe9.\u0416', 'a.\U0001f600\xff'))
         toks = gen.make_fragment(gen.rand_tokens(rng, maxtok=rng.randint(1, 8), depth=rng.randint(0, 3), alpha=alpha), rng)
         if not toks or gen.ambiguous_adjacency(toks) or not gen.in_fragment(toks):
             continue
         for fnames in flagsets(k):
             icase = 'IGNORECASE' in fnames and 'CASE' not in fnames
+            if icase and not alpha.isascii():
+                continue    # the property speaks of ASCII case only: non-ASCII letters are exercised in case-sensitive mode
             names = universe(ctx, toks, ('rand', ctx.shard, k), 4, icase)
             with ctx.case(label=(gen.ser(toks), fnames)):
                 check_pattern(ctx, toks, fnames, names, api_sample=(k % 10 == 0))
